@@ -57,27 +57,93 @@ Theorem C20_pop_failure_atomic : forall h i k h' e, noc_pop h i k = (h', Err e) 
 Proof. exact pop_failure_atomic. Qed.
 Print Assumptions C20_pop_failure_atomic.
 
+(* pop after any history, with Python's list.pop semantics: the removed object is
+   the one at the (possibly negative) index / the last one / the one named n;
+   the remaining objects keep their order and the index is rebuilt; all other
+   collections are unchanged; out-of-range indices (also on an empty collection)
+   give IndexError, unknown names KeyError, and then nothing changes *)
+Theorem C20_pop : forall ops i k h' r,
+  noc_pop (run [] ops) i k = (h', r) ->
+  let h := run [] ops in
+  (forall j v, j <> i -> view h j = Some v -> view h' j = Some v)
+  /\ match r with
+     | Ok o => exists ty l d l1 l2,
+         view h i = Some (ty, l, d) /\ l = l1 ++ o :: l2
+         /\ view h' i = Some (ty, l1 ++ l2, od_of (enum_names 0 (l1 ++ l2)))
+         /\ match k with
+            | PNone => l2 = []
+            | PIdx ix => ix = zlen l1 \/ ix = - zlen l2 - 1
+            | PName n => oname o = n
+            end
+     | Err e => h' = h /\ forall ty l d, view h i = Some (ty, l, d) ->
+         match k with
+         | PNone => l = [] /\ e = IndexError
+         | PIdx ix => (ix < - zlen l \/ zlen l <= ix) /\ e = IndexError
+         | PName n => ~ In n (names l) /\ e = KeyError
+         end
+     end.
+Proof. exact pop_all_histories. Qed.
+Print Assumptions C20_pop.
+
+(* copy() after any history: nothing old is written; the copy is a new instance
+   whose list cell AND name-index cell are different from the cells of every
+   existing instance (NamedObjectCollection.copy overrides ObjectCollection.copy
+   for exactly this), with the same content *)
+Theorem C20_copy : forall ops i h' c,
+  noc_copy (run [] ops) i = (h', Ok c) ->
+  let h := run [] ops in
+  firstn (length h) h' = h
+  /\ exists ty l d lo' di',
+       view h i = Some (ty, l, d) /\ view h' c = Some (ty, l, d)
+       /\ get_inst h c = None /\ get_inst h' c = Some (ty, lo', di')
+       /\ (forall j tyj loj dij, get_inst h j = Some (tyj, loj, dij) -> loj <> lo' /\ dij <> di').
+Proof. exact copy_fresh. Qed.
+Print Assumptions C20_copy.
+
+(* the constructor with initial objects (they are added one by one through add) *)
+Theorem C20_new_from : forall ops ty s h' r,
+  noc_new_from (run [] ops) ty s = (h', r) ->
+  let h := run [] ops in
+  firstn (length h) h' = h
+  /\ match r with
+     | Err _ => True
+     | Ok c => get_inst h c = None
+               /\ view h' c = Some (ty, s, od_of (enum_names 0 s))
+               /\ Forall (fun o => issub (ocls o) ty = true) s
+     end.
+Proof. exact new_from_all_histories. Qed.
+Print Assumptions C20_new_from.
+
+(* the element type check of add / += / + / the constructor: after any history a
+   collection holds only instances of (subclasses of) its obj_type *)
+Theorem C20_typed : forall ops i ty l d,
+  view (run [] ops) i = Some (ty, l, d) -> Forall (fun o => issub (ocls o) ty = true) l.
+Proof. exact typed_all_histories. Qed.
+Print Assumptions C20_typed.
+
 (* ---- make_dict_hash / PDFSet --------------------------------------- *)
+(* (no side condition: the statements hold for every pair of item lists that are
+   permutations of each other; Python dictionaries additionally have unique keys) *)
 Theorem C20_hash : forall (H : list item -> Z) (d d' : od Z),
-  Permutation d d' -> NoDup (od_keys d) ->
+  Permutation d d' ->
   make_dict_hash H (DDict d) = make_dict_hash H (DDict d').
 Proof. exact hash_order_free. Qed.
 Print Assumptions C20_hash.
 
 Theorem C20_pdfset_get : forall (H : list item -> Z) s (d d' : od Z),
-  Permutation d d' -> NoDup (od_keys d) ->
+  Permutation d d' ->
   pdfset_get H s (GDict d) = pdfset_get H s (GDict d').
 Proof. exact pdfset_get_order_free. Qed.
 Print Assumptions C20_pdfset_get.
 
 Theorem C20_pdfset_add : forall (H : list item -> Z) s p (d d' : od Z),
-  Permutation d d' -> NoDup (od_keys d) ->
+  Permutation d d' ->
   pdfset_add H s p (GDict d) = pdfset_add H s p (GDict d').
 Proof. exact pdfset_add_order_free. Qed.
 Print Assumptions C20_pdfset_add.
 
 Theorem C20_pdfset_add_get : forall (H : list item -> Z) s p (d d' : od Z) s',
-  Permutation d d' -> NoDup (od_keys d) ->
+  Permutation d d' ->
   pdfset_add H s p (GDict d) = (s', Ok tt) ->
   pdfset_get H s' (GDict d') = Ok p
   /\ (exists k, make_dict_hash H (DDict d') = Ok k /\ pdfset_get H s' (GInt k) = Ok p)
@@ -135,6 +201,28 @@ Theorem C20_or_check : forall s a,
 Proof. exact or_check_spec. Qed.
 Print Assumptions C20_or_check.
 
+(* sequences of masks: the check is the check against the bitwise OR of all
+   masks (masks may share bits: an OR, not a sum) *)
+Theorem C20_and_check_seq_fold : forall s ms,
+  and_check s (SSeq ms) = Ok (Z.land s (fold_right Z.lor 0 ms) =? fold_right Z.lor 0 ms).
+Proof. exact and_check_seq_fold. Qed.
+Print Assumptions C20_and_check_seq_fold.
+
+Theorem C20_or_check_seq_fold : forall s ms,
+  or_check s (SSeq ms) = Ok (negb (Z.land s (fold_right Z.lor 0 ms) =? 0)).
+Proof. exact or_check_seq_fold. Qed.
+Print Assumptions C20_or_check_seq_fold.
+
+(* DataFields.get_joint_names: exactly the fields whose stage shares a bit with
+   the given stage (with the OR of the given stages), in declaration order *)
+Theorem C20_joint_names : forall fields a,
+  joint_names fields a =
+    Ok (map fst (filter (fun kv => negb (Z.land (snd kv)
+                                   (match a with SInt m => m | SSeq ms => fold_right Z.lor 0 ms end) =? 0))
+                        fields)).
+Proof. exact joint_names_exact. Qed.
+Print Assumptions C20_joint_names.
+
 (* the 16 x 16 table over the four stage bits, swept by computation *)
 Theorem C20_stage_table : table_ok 16 4 = true.
 Proof. exact table_16. Qed.
@@ -177,6 +265,44 @@ Theorem C20_deepcopy_fresh : forall fuel st b st' m' r,
 Proof. exact dcopy_fresh. Qed.
 Print Assumptions C20_deepcopy_fresh.
 
+(* copy.deepcopy copies the content: the complete tree below the copy equals the
+   tree below the original (aliasing and cycles go through the memo table) *)
+Theorem C20_deepcopy_content : forall st fuel b st' m' r,
+  (forall k nd, nth_error st k = Some nd -> forall key x, In (key, VRef x) nd -> (x < length st)%nat) ->
+  (forall l nd, nth_error st l = Some nd -> NoDup (od_keys nd)) ->
+  (b < length st)%nat ->
+  dcopy fuel st [] b = Ok (st', m', r) ->
+  forall f, tree_of f st' (VRef r) = tree_of f st (VRef b).
+Proof. exact dcopy_content. Qed.
+Print Assumptions C20_deepcopy_content.
+
+(* Config() after any history: the new instance has exactly the content the
+   base configuration has at that moment *)
+Theorem C20_config_new_is_base : forall fuel ops w',
+  let w := wrun fuel w0 ops in
+  wstep fuel w WNew = (w', Ok tt) ->
+  exists base root,
+    nth_error (wusers w) 0 = Some base /\ winsts w' = winsts w ++ [root] /\ wusers w' = wusers w
+    /\ forall f, tree_of f (wst w') (VRef root) = tree_of f (wst w) (VRef base).
+Proof. exact new_config_is_base. Qed.
+Print Assumptions C20_config_new_is_base.
+
+(* composition: an instance is a private snapshot of the base configuration at its
+   creation time — whatever later happens to the base, to user dictionaries and
+   to other instances (any steps not applied to this instance), its content
+   stays what the base was when Config() was called *)
+Theorem C20_config_snapshot : forall fuel ops1 ops2 w1,
+  let w := wrun fuel w0 ops1 in
+  wstep fuel w WNew = (w1, Ok tt) ->
+  let j := length (winsts w) in
+  (forall o, In o ops2 -> ~ targets_inst o j) ->
+  exists base root,
+    nth_error (wusers w) 0 = Some base
+    /\ nth_error (winsts (wrun fuel w1 ops2)) j = Some root
+    /\ forall f, tree_of f (wst (wrun fuel w1 ops2)) (VRef root) = tree_of f (wst w) (VRef base).
+Proof. exact config_snapshot. Qed.
+Print Assumptions C20_config_snapshot.
+
 (* ---- non-vacuity ---------------------------------------------------- *)
 Example C20_index_nonvacuous :
   let o k := mkobj k k CBase in
@@ -211,3 +337,58 @@ Example C20_config_nonvacuous :
   /\ tree_of 20 (wst w) (VRef 2) = Ok (TNode [(2, TNode [(22, TAtom 9)])])
   /\ tree_of 20 (wst w) (VRef 0) = Ok (TNode [(2, TNode [(22, TAtom 0)])]).
 Proof. cbv zeta. repeat split; vm_compute; reflexivity. Qed.
+
+(* pop with negative / out-of-range indices and the constructor: concrete runs *)
+Example C20_pop_nonvacuous :
+  let o k := mkobj k k CBase in
+  let h := run [] [ONewSeq CBase [o 0; o 1; o 2; o 3]] in
+  (exists h', noc_pop h 2 (PIdx (-3)) = (h', Ok (o 1))
+              /\ view h' 2 = Some (CBase, [o 0; o 2; o 3], [(0, 0); (2, 1); (3, 2)]))
+  /\ snd (noc_pop h 2 (PIdx (-5))) = Err IndexError /\ snd (noc_pop h 2 (PIdx 4)) = Err IndexError
+  /\ snd (noc_pop h 2 (PName 7)) = Err KeyError
+  /\ snd (noc_new_from h CDerived [o 0]) = Err TypeError
+  /\ and_check 5 (SSeq [1; 4; 5]) = Ok true /\ or_check 2 (SSeq [5; 4]) = Ok false
+  /\ or_check 6 (SSeq [3; 3]) = Ok true.
+Proof. cbv zeta. split; [eexists; split; vm_compute; reflexivity|]. repeat split; vm_compute; reflexivity. Qed.
+
+(* the two side conditions of C20_deepcopy_content are needed: with a duplicated key
+   or a dangling reference the copy has a different content *)
+Example C20_deepcopy_content_needs_unique_keys :
+  exists st st' m' r, dcopy 5 st [] 0 = Ok (st', m', r)
+    /\ tree_of 5 st' (VRef r) <> tree_of 5 st (VRef 0).
+Proof.
+  exists [[(1, VAtom 0); (1, VAtom 5)]]. eexists; eexists; eexists. split; [vm_compute; reflexivity|].
+  vm_compute. discriminate.
+Qed.
+
+Example C20_deepcopy_content_needs_no_dangling :
+  exists st st' m' r, dcopy 5 st [] 0 = Ok (st', m', r)
+    /\ tree_of 5 st' (VRef r) <> tree_of 5 st (VRef 0).
+Proof.
+  exists [[(1, VRef 1)]]. eexists; eexists; eexists. split; [vm_compute; reflexivity|].
+  vm_compute. discriminate.
+Qed.
+
+(* the guard operand_in of C20_plus is needed: an operand that names the location
+   the copy is about to occupy does not denote a collection of the old heap *)
+Example C20_plus_operand_guard_needed :
+  let o0 := mkobj 0 0 CBase in
+  let h := run [] [ONewSeq CBase [o0]] in
+  snd (noc_plus h 2 (OpColl 5)) = Ok 5%nat /\ oc_add_objs h CBase (OpColl 5) = Err AttributeError.
+Proof. cbv zeta. split; vm_compute; reflexivity. Qed.
+
+(* the hypotheses of C20_config_snapshot are satisfiable: an instance, then edits
+   of the base and of another instance; the first instance still shows the old base *)
+Example C20_config_snapshot_nonvacuous :
+  let ops1 := [WUserNew; WUserNew; WUserSet 1 [] 22 0; WUserLink 0 [] 2 1] in
+  let w := wrun 20 w0 ops1 in
+  let w1 := fst (wstep 20 w WNew) in
+  let ops2 := [WUserSet 0 [2] 22 9; WNew; WMut 1 MEnable] in
+  snd (wstep 20 w WNew) = Ok tt
+  /\ (forall o, In o ops2 -> ~ targets_inst o (length (winsts w)))
+  /\ map (fun r => tree_of 20 (wst (wrun 20 w1 ops2)) (VRef r)) (winsts (wrun 20 w1 ops2))
+     = [Ok (TNode [(2, TNode [(22, TAtom 0)])]); Ok (TNode [(2, TNode [(22, TAtom 1)])])].
+Proof.
+  cbv zeta. split; [vm_compute; reflexivity|]. split; [|vm_compute; reflexivity].
+  intros o [<-|[<-|[<-|[]]]]; vm_compute; try tauto. discriminate.
+Qed.
